@@ -3,13 +3,13 @@
 model-checking / simulation / replay front-end from one table, so that they cannot drift apart."""
 import os
 HERE = os.path.dirname(os.path.abspath(__file__))
-ALL = "C16 C01 C02 C03 C04 C05 C06 C08 C11 C12 C13 C14 C15 StoreAgrees"
+ALL = "C07 C16 C01 C02 C03 C04 C05 C06 C08 C11 C12 C13 C14 C15 StoreAgrees"
 BASE = dict(
     NVB="2", InitLog="<- HistA", MaxSeq="3", Keys='{"user"}', Kinds='{"mut", "sys", "adv"}', OldEvents="FALSE",
     BadEvents="FALSE", FoUuid="<- Fo10", Savers='{"p"}', MaxSaves="2", MaxCrash="1", MaxAcks="2", MaxGen="2",
     MaxNotify="0", MaxEnds="0", MaxFail="0", AutoReset='"earliest"', Finite="FALSE", AutoCkpt="FALSE",
     Infos="<- NoInfos", Info0="<- Info11", EndCauses="{}", Hold="FALSE", AllowClose="FALSE", Rollbacks="FALSE",
-    FailSaves="TRUE", Focus="TRUE", Record="FALSE", Scrapes="FALSE", Marking="FALSE", WindAt="0", Gaps="{}", Bugs="{}")
+    FailSaves="TRUE", Focus="TRUE", Record="FALSE", RM="FALSE", Slots="1", RmUuids="{1, 2}", Scrapes="FALSE", Marking="FALSE", WindAt="0", Gaps="{}", Bugs="{}")
 DATA = dict(BASE)
 GEN = dict(BASE, NVB="1", InitLog="<- EmptyLog", Kinds='{"mut", "del", "exp", "sys", "adv"}', Keys='{"user", "conn", "txn"}',
            OldEvents="TRUE", BadEvents="TRUE", MaxSaves="1", Rollbacks="TRUE", FailSaves="FALSE")
@@ -74,6 +74,17 @@ CFGS = {
     "WitReplayLife1": rep(LIFE, NVB="1", MaxSeq="3", MaxSaves="5", MaxAcks="5", MaxNotify="5", MaxEnds="6", Hold="TRUE"),
     "WitReplayLife": rep(LIFE, MaxSeq="3", MaxSaves="5", MaxAcks="5", MaxNotify="5", MaxEnds="6", Hold="TRUE"),
     # ---- start-up faults ------------------------------------------------------------------------------------
+    "MCRmQ": mc(GEN, RM="TRUE", Slots="2", MaxSeq="2", Kinds='{"mut", "adv"}', Keys='{"user"}', OldEvents="FALSE", BadEvents="FALSE",
+                Rollbacks="FALSE", MaxCrash="0", MaxSaves="0", MaxAcks="0", AllowClose="TRUE", Focus="TRUE"),
+    "MCRm": mc(GEN, RM="TRUE", Slots="3", MaxSeq="3", Kinds='{"mut", "sys", "adv"}', Keys='{"user"}', OldEvents="FALSE", BadEvents="FALSE",
+               Rollbacks="FALSE", MaxCrash="0", MaxSaves="0", MaxAcks="1", AllowClose="TRUE", Focus="TRUE"),
+    "SimRm": simc(GEN, 50, RM="TRUE", Slots="3", MaxSeq="3", NVB="2", Kinds='{"mut", "sys", "adv"}', Keys='{"user"}', OldEvents="FALSE",
+                  BadEvents="FALSE", Rollbacks="FALSE", MaxCrash="0", MaxSaves="1", MaxAcks="2", AllowClose="TRUE", Focus="TRUE"),
+    "SimRm2": simc(GEN, 44, RM="TRUE", Slots="2", RmUuids="{1}", MaxSeq="3", Kinds='{"mut", "del", "sys", "adv"}', Keys='{"user"}', OldEvents="FALSE",
+                   BadEvents="FALSE", Rollbacks="FALSE", MaxCrash="0", MaxSaves="1", MaxAcks="2", AllowClose="TRUE", Focus="TRUE"),
+    "WitRm": wit(GEN, RM="TRUE", Slots="2", MaxSeq="2", Kinds='{"mut", "adv"}', Keys='{"user"}', OldEvents="FALSE", BadEvents="FALSE",
+                 Rollbacks="FALSE", MaxCrash="0", MaxSaves="1", MaxAcks="0", AllowClose="TRUE", Focus="TRUE"),
+    "WitReplayRm": rep(GEN, RM="TRUE", Slots="2", MaxSeq="4", MaxSaves="10", MaxAcks="10", MaxCrash="0", MaxGen="4", AllowClose="TRUE", Rollbacks="FALSE"),
     "MCMetricQ": mc(LIFE, Scrapes="TRUE", MaxNotify="1", MaxEnds="0", MaxSaves="0", MaxAcks="1", MaxSeq="1", Hold="TRUE", AllowClose="FALSE", AutoCkpt="FALSE"),
     "MCMetric": mc(LIFE, Scrapes="TRUE", MaxNotify="1", MaxEnds="1", MaxSaves="1", MaxAcks="2", MaxSeq="2", Hold="TRUE",
                    Kinds='{"mut", "del", "exp", "sys"}', Keys='{"user", "conn"}'),
